@@ -58,8 +58,8 @@ type countingCtx struct {
 func newCountingCtx(k int, kind error) *countingCtx {
 	return &countingCtx{K: k, Kind: kind, done: make(chan struct{})}
 }
-func (c *countingCtx) Deadline() (time.Time, bool) { return time.Time{}, false }
-func (c *countingCtx) Done() <-chan struct{}      { return c.done }
+func (c *countingCtx) Deadline() (time.Time, bool)       { return time.Time{}, false }
+func (c *countingCtx) Done() <-chan struct{}             { return c.done }
 func (c *countingCtx) Value(key interface{}) interface{} { return nil }
 func (c *countingCtx) Err() error {
 	c.Polls++
@@ -156,6 +156,11 @@ func errSig(err error) string {
 	return s
 }
 
+var (
+	hookFired                             bool
+	c11AdvSinceCancel, c11DispSinceCancel int64
+)
+
 const c11Probe = "SELECT a, COUNT(*) FROM t WHERE a = 1 AND b IN (1, 2) GROUP BY a"
 
 func c11ProbeOutcome(tk *tokenizer.Tokenizer, p *parser.Parser) string {
@@ -209,6 +214,14 @@ func c11Inputs(r *rand.Rand, g *gen.G, i int) string {
 		"INSERT INTO t (a, b) SELECT a, CASE a WHEN 1 THEN 'x' ELSE 'y' END FROM u WHERE a > ANY (SELECT b FROM v); UPDATE t SET a = (SELECT 1) WHERE b = 2; DELETE FROM t WHERE a IN (SELECT a FROM u)",
 		"CREATE VIEW v AS SELECT a FROM t WHERE a = (SELECT MAX(b) FROM u GROUP BY c HAVING COUNT(*) > 1)",
 		"SELECT " + strings.Repeat("a + ", 60) + "1 FROM t WHERE " + strings.Repeat("b = 1 AND ", 40) + "c = 2",
+		// wide statements that never reach an expression, and long comment runs
+		"CREATE TABLE wide (" + strings.Repeat("c INT, ", 900) + "z INT)",
+		"SELECT * FROM " + strings.Repeat("t, ", 1200) + "u",
+		"INSERT INTO t (" + strings.Repeat("c, ", 900) + "z) VALUES (1)",
+		"DROP TABLE " + strings.Repeat("t, ", 1200) + "u",
+		"SELECT a " + strings.Repeat("/* c */ ", 1500) + "FROM t",
+		"SELECT a, b, c, d, e, f, g FROM t " + strings.Repeat("-- c\n", 1500) + "WHERE a = 1",
+		strings.Repeat("/* lead */\n", 1500) + "SELECT 1",
 	}
 	if i < len(fixed) {
 		return fixed[i]
@@ -228,8 +241,12 @@ func c11Child(a *ChildArgs) {
 		if c11Watch != nil && c11Watch.closed {
 			c11AdvAfter++
 		}
+		if hookFired {
+			c11AdvSinceCancel++
+		}
 		if hookCancelAt >= 0 && int(c11Advances) == hookCancelAt && hookCancel != nil {
 			hookCancel()
+			hookFired = true
 		}
 	}
 	tokenizer.VerifNextTokenHook = func(offset, inputLen int) {
@@ -237,8 +254,12 @@ func c11Child(a *ChildArgs) {
 		if c11Watch != nil && c11Watch.closed {
 			c11DispAfter++
 		}
+		if hookFired {
+			c11DispSinceCancel++
+		}
 		if hookCancelAtDispatch >= 0 && int(c11Dispatches) == hookCancelAtDispatch && hookCancel != nil {
 			hookCancel()
+			hookFired = true
 		}
 	}
 	avoid := mon.AvoidFeatures()
@@ -261,7 +282,50 @@ func c11Child(a *ChildArgs) {
 	}
 }
 
+// c11Expired: entry points that take a time budget instead of a context: an exhausted budget is a context that is
+// already done.
+func c11Expired(a *ChildArgs, sql string) {
+	for _, d := range []time.Duration{0, -time.Second, -1, time.Nanosecond} {
+		a.Rec.Count("evaluations", 1)
+		tree, err := gosqlx.ParseWithTimeout(sql, d)
+		if d == time.Nanosecond && err == nil {
+			continue // a nanosecond may, in principle, suffice to see the context live at the first poll
+		}
+		wit := map[string]interface{}{"sql": trunc(sql, 200), "timeout": d.String(), "error": fmt.Sprint(err)}
+		if tree != nil || err == nil {
+			a.Rec.Viol("C11/gosqlx.ParseWithTimeout/expired-budget-ignored", "a call whose context is already done returns no tree and an error matching the context's error", fmt.Sprintf("timeout %v: tree=%v err=%v", d, tree != nil, err), wit)
+		} else if !errors.Is(err, context.DeadlineExceeded) {
+			a.Rec.Viol("C11/gosqlx.ParseWithTimeout/expired-budget-error/"+errSig(err), "the error matches the context's error under errors.Is", fmt.Sprintf("timeout %v: %v", d, err), wit)
+		}
+	}
+	// an already cancelled / expired context through every context entry point
+	for _, mk := range []func() (context.Context, error){
+		func() (context.Context, error) {
+			c, cancel := context.WithCancel(context.Background())
+			cancel()
+			return c, context.Canceled
+		},
+		func() (context.Context, error) {
+			c, cancel := context.WithDeadline(context.Background(), time.Unix(1, 0))
+			_ = cancel
+			return c, context.DeadlineExceeded
+		},
+	} {
+		ctx, want := mk()
+		for _, ep := range ctxEPs() {
+			a.Rec.Count("evaluations", 1)
+			_, hasTree, err := ep.Run(ctx, mustTokenizer(), parser.NewParser(), sql)
+			if hasTree || err == nil || !errors.Is(err, want) {
+				a.Rec.Viol("C11/"+ep.Name+"/already-done", "a call whose context is already done returns no tree and an error matching the context's error", fmt.Sprintf("want %v: tree=%v err=%v", want, hasTree, err), map[string]interface{}{"sql": trunc(sql, 200)})
+			}
+		}
+	}
+}
+
 func c11Polls(a *ChildArgs, sql string, i int) {
+	if i < 4 {
+		c11Expired(a, sql)
+	}
 	freshProbe := c11ProbeOutcome(mustTokenizer(), parser.NewParser())
 	for _, ep := range ctxEPs() {
 		// uncancelled run: learn P and compare with the context-free call
@@ -359,11 +423,22 @@ func c11HookCancel(a *ChildArgs, sql string) {
 		ctx, cancel := context.WithCancel(context.Background())
 		defer cancel()
 		c11Advances, c11Dispatches = 0, 0
+		hookFired, c11AdvSinceCancel, c11DispSinceCancel = false, 0, 0
 		hookCancelAt, hookCancelAtDispatch, hookCancel = atAdv, atDisp, cancel
 		tree, err := gosqlx.ParseWithContext(ctx, sql)
 		hookCancelAt, hookCancelAtDispatch, hookCancel = -1, -1, nil
+		hookFired = false
 		a.Rec.Count("evaluations", 1)
-		wit := map[string]interface{}{"sql": sql, "cancel_at_parser_advance": atAdv, "cancel_at_tokenizer_dispatch": atDisp, "error": fmt.Sprint(err)}
+		wit := map[string]interface{}{"sql": trunc(sql, 400), "cancel_at_parser_advance": atAdv, "cancel_at_tokenizer_dispatch": atDisp, "error": fmt.Sprint(err),
+			"parser_advances_after_cancel": c11AdvSinceCancel, "tokenizer_dispatches_after_cancel": c11DispSinceCancel}
+		a.Rec.Max("advances_after_real_cancel", c11AdvSinceCancel)
+		a.Rec.Max("dispatches_after_real_cancel", c11DispSinceCancel)
+		// promptness: however the call ends, the work done after the context turned done is bounded by the polling
+		// intervals (one per 100 tokenizer rounds, one per 256 parser tokens), not by the size of what is left
+		if c11AdvSinceCancel > 256+64 || c11DispSinceCancel > 100+32 {
+			a.Rec.Viol("C11/hook/work-after-cancel", "the call ends after a bounded amount of further work",
+				fmt.Sprintf("after the cancellation: %d parser advances and %d tokenizer dispatches (tree returned: %v)", c11AdvSinceCancel, c11DispSinceCancel, tree != nil), wit)
+		}
 		switch {
 		case err == nil && tree != nil:
 			if treeDigest(tree) != want || werr != nil {
